@@ -11,6 +11,7 @@ from formulas.tokens.operand import XlError
 P, Q, R = "'[b]S'!", "'[b]T'!", "'[c.xlsx]U'!"
 S2 = "'[c.xlsx]S'!"
 NAME = "'[b]'!NM"
+KC, NB = "'[b]'!KC", "'[b]'!NB"      # a constant-valued name; a name pointing at a cell that is not in the model
 ERR = formulas.functions.Error.errors if hasattr(formulas, 'functions') else None
 
 
@@ -45,8 +46,22 @@ def template(t, a1=5, a2=3):
               P + 'K1': '=SUM(%sH1:I1)/SUM((%sH1:I1,%sH2:H2))' % (P, P, P),
               # a second workbook with a sheet of the SAME name, read through ranges
               S2 + 'H1': 100, S2 + 'I1': 200, S2 + 'H2': 300,
-              P + 'K2': '=SUM(%sH1:I1)-SUM(%sH1:I1)' % (S2, P), P + 'K3': '=IF(%sH1>=3,"big",)' % P})
+              P + 'K2': '=SUM(%sH1:I1)-SUM(%sH1:I1)' % (S2, P), P + 'K3': '=IF(%sH1>=3,"big",)' % P,
+              # a defined name that holds a constant
+              KC: '=0.5', P + 'K4': '=%sH1*%s' % (P, KC),
+              # sparse ranges: H3 ... H7 are NOT cells of the model (blank); two overlapping ranges read them,
+              # a name points at H3, H4 is also read alone, H5 is referred to by the ranges only, H6 and H7 by ONE range only (two or more such cells are read through the solution, not through nodes)
+              P + 'K5': '=SUM(%sH1:H7)' % P, NB: '=%sH3' % P, P + 'K6': '=%s+1' % NB,
+              P + 'K7': '=SUM(%sH2:H5)*2+%sH4' % (P, P),
+              P + 'K11': '=SUM(%sG6:H7)' % P,        # a second sparse range over the cells only ranges know
+              # column I: I3, I4, I5 are blank and known to these two ranges only; both ranges hold stored cells
+              P + 'K12': '=SUM(%sI1:I5)' % P, P + 'K13': '=COUNT(%sI2:I4)*100+SUM(%sI2:I4)' % (P, P),
+              # a volatile cell, a dependent of it, and a cell in which the two cancel (K8, K9 are left out of comparisons)
+              P + 'K8': '=RAND()', P + 'K9': '=%sK8*1' % P, P + 'K10': '=%sK9-%sK8+%sA2' % (P, P, P)})
     return d
+
+
+VOLATILE = {P + 'K8', P + 'K9'}
 
 
 def _template(t, a1=5, a2=3):
@@ -119,7 +134,7 @@ def norm_value(v):
 def norm(sol, only=None):
     out = {}
     for k, v in sol.items():
-        if isinstance(k, sh.Token) or (only is not None and k not in only):
+        if isinstance(k, sh.Token) or (only is not None and k not in only) or k in VOLATILE:
             continue
         x = norm_value(v.value if hasattr(v, 'value') else v)
         # a supplied input that no requested output needs is handed back as given (5, not
@@ -144,6 +159,7 @@ def override_sets():
     sets.append(('block', {BLOCK: [[4, 7], [9, 'q']]}))
     sets.append(('formula', {P + 'B1': 100}))
     sets.append(('two', {P + 'A1': 1, P + 'A2': 0}))
+    sets.append(('sparse', {P + 'H3': 6, P + 'H6': 1}))      # cells that are blank in the model (H6 is read through the solution)
     return sets
 
 
@@ -157,7 +173,7 @@ def apply_op(m, op):
     elif op == 2:
         m.calculate(inputs={NAME: pl[4]})
     elif op == 3:
-        m.calculate(inputs={P + 'A1:A3': [[7], [0], [2]], P + 'A2:A3': [[0], [2]]})
+        m.calculate(inputs={P + 'A1:A3': [[7], [0], [2]], P + 'A2:A3': [[0], [2]], P + 'H1:H7': [[1], [2], [3], [4], [5], [6], [7]]})
     elif op == 4:
         m.calculate(outputs=[Q + 'A1'])
     elif op == 5:
@@ -171,7 +187,7 @@ def apply_op(m, op):
     elif op == 9:
         m.calculate(inputs={P + 'B1': 100})
     elif op == 10:
-        m.calculate(inputs={P + 'A1': pl[6], P + 'A2': pl[3]})
+        m.calculate(inputs={P + 'A1': pl[6], P + 'A2': pl[3], P + 'H6': 5, P + 'H4': 2})       # H4, H6 are blank in the model
     elif op == 11:
         m.compile([NAME, P + 'A2'], [P + 'D1', P + 'C1'])(3, 4)
     elif op == 12:
@@ -183,3 +199,40 @@ def apply_op(m, op):
 
 
 NOPS = 14
+
+
+def fixed_point(d, sol, skip=()):
+    """every formula cell of the dictionary model d equals its own formula (compiled ALONE) applied to the solved
+    values of the cells it refers to; every constant holds its stored value"""
+    from formulas.ranges import Ranges
+    got = norm(sol)
+    for k, v in d.items():
+        if not (isinstance(v, str) and v.startswith('=')) or "]'!" in k or k in skip or k == P + 'K8':
+            continue                      # defined names have no place of their own; a volatile cell is not a function of cells
+        func = formulas.Parser().ast(v)[1].compile()
+        args = []
+        for name, rng in func.inputs.items():
+            if name in sol:
+                args.append(sol[name])
+                continue
+            # a multi-area reference is one argument: the union of the calculated areas
+            areas = getattr(rng, 'ranges', None)
+            if not areas or any(r['name'] not in sol for r in areas):
+                return False
+            arg = Ranges(areas)
+            for r in areas:
+                arg.values.update(sol[r['name']].values)
+            args.append(arg)
+        val = func(*args)
+        shp = np.shape(sol[k].value)
+        fit = Ranges().push(k, val).value if shp != (1, 1) else val
+        fit = norm_value(np.asarray(fit, object).reshape(shp) if np.size(fit) == np.prod(shp) else fit)
+        have = norm_value(sol[k].value)
+        if fit != have:
+            return False
+    for k, v in d.items():
+        if not isinstance(v, str) or not v.startswith('='):
+            want = norm_value([[sh.EMPTY]] if v == '#EMPTY' else v)
+            if k in got and got[k] != (want if isinstance(want, list) else [[want]]):
+                return False
+    return True
